@@ -201,6 +201,17 @@ class StmtMixin:
                 if isinstance(tg, ast.Subscript):
                     for s2, b in self.ev(tg.value, cur, cx):
                         for s3, k in self.ev(tg.slice, s2, cx):
+                            if isinstance(b, VRec) and isinstance(b.sort, TKDict):
+                                kc = k.conc()
+                                if kc is None or kc not in b.sort.keys:
+                                    raise Unsupported("del of a key outside the key universe")
+                                ok, bad = self.fork(s3, b.sort.get(b.t, "p_" + kc))
+                                if bad is not None:
+                                    self.raise_(cx, bad, "builtins.KeyError")
+                                if ok is not None:
+                                    ts = [z3.BoolVal(False) if f == "p_" + kc else b.sort.get(b.t, f) for f, _ in b.sort.fields]
+                                    nxt.extend(self.assign_target(tg.value, VRec(b.sort.mk(*ts), b.sort), ok, cx))
+                                continue
                             if isinstance(b, VConcDict):
                                 kc = k.conc()
                                 items = [(a, v) for a, v in b.items if a.conc() != kc]
@@ -494,8 +505,51 @@ class StmtMixin:
         live = [st]
         done = []
         broke = []
+        from .sym_builtin import VGuard
         for it in items:
             nxt = []
+            if isinstance(it, VGuard):
+                # element present only under it.cond.  When the body leaves the state unchanged on its normal exits (a pure
+                # check that may raise), the two cases are joined again instead of doubling the number of paths.
+                for cur in live:
+                    t, f = self.fork(cur, it.cond)
+                    if t is None:
+                        nxt.append(f)
+                        continue
+                    normals = []
+                    for b in self.assign_target(s.target, it.val, t, cx):
+                        for s2, oc in self.exec_block(s.body, b, cx):
+                            if oc[0] in ("normal", "continue"):
+                                normals.append((b, s2))
+                            elif oc[0] == "break":
+                                broke.append(s2)
+                            else:
+                                done.append((s2, oc))
+                    tnames = assigned_names([ast.Assign(targets=[s.target], value=ast.Constant(0), lineno=0)])
+
+                    def same(b, s2):
+                        if s2.heap != b.heap or s2.glob != b.glob or not z3.eq(s2.top, b.top):
+                            return False
+                        for k2, v2 in s2.env.items():
+                            if k2 in tnames:
+                                continue
+                            if k2 not in b.env or b.env[k2] is not v2:
+                                return False
+                        return True
+                    if f is not None and normals and all(same(b, s2) for b, s2 in normals):
+                        merged = cur.copy()
+                        disj = []
+                        for b, s2 in normals:
+                            inc = s2.pc[len(t.pc):]
+                            disj.append(z3.And(*inc) if inc else z3.BoolVal(True))
+                        merged.pc.append(z3.Implies(it.cond, z3.Or(*disj)))
+                        nxt.append(merged)
+                    else:
+                        nxt.extend(s2 for _, s2 in normals)
+                        if f is not None:
+                            nxt.append(f)
+                live = nxt
+                continue
             for cur in live:
                 for b in self.assign_target(s.target, it, cur, cx):
                     for s2, oc in self.exec_block(s.body, b, cx):
